@@ -10,10 +10,13 @@ tie:   generated call histories run on the real decorators through the public `C
 from __future__ import annotations
 
 import json
+import os
+import subprocess
+import sys
 from pathlib import Path
 
 from .. import decor14 as D
-from ..core import ROOT, Check, Driver, HarnessError, ddmin, proof_stage
+from ..core import ROOT, WORK, Check, Driver, HarnessError, ddmin, proof_stage
 
 PROP = "C14"
 DRIVER = Driver("driver_c14", "Drivers/C14.lean")
@@ -32,6 +35,31 @@ TRUSTED = [
 
 def run_impl(case):
     return D.execute(case["cfg"], case["ops"])
+
+
+def _impl_chunk(chunk):
+    return [run_impl(c) for _, c in chunk]
+
+
+def sharded(chunks, nproc, workers):
+    """generator of the implementation's events per chunk, computed by `nproc` worker processes (harness/c14worker.py)"""
+    WORK.mkdir(exist_ok=True)
+    path = WORK / f"c14_cases_{os.getpid()}.json"
+    path.write_text(json.dumps(chunks))
+    try:
+        for k in range(nproc):
+            workers.append(subprocess.Popen([sys.executable, "-m", "harness.c14worker", str(path), str(k), str(nproc)],
+                                            cwd=ROOT, stdout=subprocess.PIPE, text=True))
+        for i in range(len(chunks)):
+            line = workers[i % nproc].stdout.readline()
+            if not line:
+                raise HarnessError(f"worker {i % nproc} died before delivering chunk {i}")
+            j, evs = json.loads(line)
+            if j != i:
+                raise HarnessError(f"worker {i % nproc} delivered chunk {j} instead of {i}")
+            yield evs
+    finally:
+        path.unlink(missing_ok=True)
 
 
 def ask_model(cases_events):
@@ -209,11 +237,17 @@ def exhaustive_cases():
 
 def run(chk: Check) -> int:
     proof = proof_stage(PROP, "driver_c14", chk.thorough) if not getattr(chk, "skip_proof", False) else None
-    n = chk.budget(2400, 60000)
+    n = chk.budget(12000, 300000)
+    enum_len = chk.budget(4, 6)
     cases = [("corpus:" + name, c) for name, c in corpus_cases()]
     ncorpus = len(cases)
     grid = exhaustive_cases()
     cases += [(f"grid:{i}", c) for i, c in enumerate(grid)]
+    enum_sizes = {}
+    for cfg, alphabet in D.ENUM:
+        hs = D.enumerate_histories(alphabet, enum_len)
+        enum_sizes[f"{cfg['decor']} bg={cfg['bg']} hits={cfg['hits']} upd={cfg['upd']}: |alphabet|={len(alphabet)}"] = len(hs)
+        cases += [(f"enum:{cfg['decor']}:{i}", {"cfg": cfg, "ops": h}) for i, h in enumerate(hs)]
     decors = ["early", "soft", "fail", "hit", "early", "hit"]
     for i in range(n):
         cfg = D.gen_cfg(chk.rng, decors[i % len(decors)])
@@ -226,13 +260,19 @@ def run(chk: Check) -> int:
     op_hist: dict[str, int] = {}
     samples = []
     seen_sigs = set()
+    real_decors = set()
     diffs = 0
     found_real = 0
     pending_diff = []
     CH = 400
-    for c0 in range(0, len(cases), CH):
-        chunk = cases[c0:c0 + CH]
-        evs = [run_impl(c) for _, c in chunk]
+    chunks = [cases[c0:c0 + CH] for c0 in range(0, len(cases), CH)]
+    workers = []
+    if chk.thorough:
+        # the implementation runs are independent and deterministic: shard them over a few worker processes
+        impl_runs = sharded(chunks, 4, workers)
+    else:
+        impl_runs = map(_impl_chunk, chunks)
+    for chunk, evs in zip(chunks, impl_runs):
         answers = ask_model([(c, e) for (_, c), e in zip(chunk, evs)])
         for (origin, case), events, ans in zip(chunk, evs, answers):
             evaluations += 1
@@ -257,6 +297,8 @@ def run(chk: Check) -> int:
                 before = len(chk.violations)
                 report_problem(chk, case, sig, origin)
                 found_real += len(chk.violations) - before
+                if len(chk.violations) > before:
+                    real_decors.add(d)
             dm = diff_model(events, ans)
             if dm is not None and not problems:
                 diffs += 1
@@ -264,8 +306,12 @@ def run(chk: Check) -> int:
                     pending_diff.append((origin, case))
         if found_real >= 4:
             break
+    for w in workers:
+        w.kill()
+        w.wait()
     for origin, case in pending_diff:
-        report_diff(chk, case, origin)
+        if case["cfg"]["decor"] not in real_decors:      # a genuine violation of the same decorator says it all
+            report_diff(chk, case, origin)
     if proof is not None:
         chk.proof_broken(proof, found_real > 0)
     chk.coverage.update({
@@ -284,8 +330,12 @@ def run(chk: Check) -> int:
         "corpus_cases": ncorpus,
         "grid_cases": len(grid),
         "exhaustive": True,
-        "exhaustive_note": "exhaustive refers to the parameter grid (every combination of the property's grids is run with a boundary-walking "
-                           "history); histories themselves are sampled",
+        "exhaustive_note": f"enumerated completely: (1) every history of 1..{enum_len} operations (starting with a call) over a boundary alphabet "
+                           "(calls ok/listed[/unlisted], gaps reaching ages exactly at / between / beyond the inner and hard TTL, completion of the "
+                           "oldest refresh ok/listed) for six fixed configurations (enumerated_histories gives the sizes); (2) every parameter "
+                           "combination of the property's grids with a fixed boundary-walking history (grid_cases). Longer histories and the other "
+                           "configurations are sampled",
+        "enumerated_histories": enum_sizes,
         "cases_per_decorator": per_decor,
         "op_histogram": op_hist,
         "interesting_states_cases": dict(sorted(interesting.items())),
